@@ -114,18 +114,18 @@ func c17Assume(p *Prog, fn *ssa.Function) []Atom {
 	}
 	switch rt.Obj().Name() {
 	case "LogValueRef", "ValuePredicate", "LogPredicate":
-		if fn.Name() == "Validate" || strings.HasPrefix(fn.Name(), "validate") || fn.Name() == "DecodeRLP" || fn.Name() == "EncodeRLP" {
+		if fnName(fn) == "Validate" || strings.HasPrefix(fnName(fn), "validate") || fnName(fn) == "DecodeRLP" || fnName(fn) == "EncodeRLP" {
 			return nil
 		}
 		out := inst(rt.Obj().Name(), recv)
 		// a method value receiver may be copied into a local: also state the facts for *recv forms
 		return out
 	case "EventTriggerDefinition":
-		if fn.Name() == "UnmarshalBytes" || fn.Name() == "MarshalBytes" {
+		if fnName(fn) == "UnmarshalBytes" || fnName(fn) == "MarshalBytes" {
 			return nil
 		}
 		var after *ssa.BasicBlock // in Validate: only code after the loop that validated every predicate
-		if fn.Name() == "Validate" {
+		if fnName(fn) == "Validate" {
 			for _, l := range loopsOf(p, fn) {
 				if l.Idx == nil || l.Lo != 0 || !ParsePat("len($d.LogPredicates)").Match(l.Bound, Binds{"d": recv}) {
 					continue
